@@ -385,8 +385,17 @@ def check(ctx):
 # ---------------------------------------------------------------------------------------
 # gradient independence from the forward method (implementation only)
 # ---------------------------------------------------------------------------------------
+NOT_CONVERGED = [False]
+
+
 def _grads(out_fn, leaves, second=True):
-    outs = out_fn()
+    # a built-in iterative method may legitimately end with a ConvergenceWarning (e.g. broyden1 on about 1 % of the random
+    # cubics): such a run is not a reference for anything (false alarm of thorough seed 1); the flag is read by _cmp
+    with warnings.catch_warnings(record=True) as wlist:
+        warnings.simplefilter("always")
+        outs = out_fn()
+    if any("converge" in str(x.message) for x in wlist):
+        NOT_CONVERGED[0] = True
     w = torch.linspace(0.3, 1.1, outs.numel(), dtype=outs.dtype).reshape(outs.shape)
     loss = (outs * w).sum()
     g1 = torch.autograd.grad(loss, leaves, create_graph=second, allow_unused=True)
@@ -403,6 +412,10 @@ def _grads(out_fn, leaves, second=True):
 
 
 def _cmp(ctx, key, info, ra, rb, rtol, atol):
+    if NOT_CONVERGED[0]:
+        NOT_CONVERGED[0] = False
+        ctx.stat("gradindep_skipped_not_converged")
+        return True
     names = ["value"] + ["grad%d" % i for i in range(len(ra) - 1)]
     for nm, x, y in zip(names, ra, rb):
         if x.shape != y.shape or not torch.allclose(x, y, rtol=rtol, atol=atol):
